@@ -477,6 +477,16 @@ pub enum Ty { Node, Rel, Path, Int, Num, Str, Bool, ListInt, Any }
 pub struct Scope {
     pub vars: Vec<(usize, Ty, bool)>, // variable, type, nullable
     pub params: Vec<(usize, MV)>,
+    /// property values present in the graph, per key (only those with a Cypher literal form)
+    pub kvals: BTreeMap<String, Vec<MV>>,
+}
+
+/// the property values of a graph per key, for predicates that compare against values that occur
+pub fn graph_values(g: &MGraph) -> BTreeMap<String, Vec<MV>> {
+    let mut m: BTreeMap<String, Vec<MV>> = BTreeMap::new();
+    for (_, _, ps) in &g.nodes { for (k, v) in ps { if cypher_lit(v).is_some() { m.entry(k.clone()).or_default().push(v.clone()); } } }
+    for (_, ps) in &g.rprops { for (k, v) in ps { if cypher_lit(v).is_some() { m.entry(k.clone()).or_default().push(v.clone()); } } }
+    m
 }
 
 pub struct ExGen<'a> {
@@ -581,11 +591,39 @@ impl<'a> ExGen<'a> {
             }
         }
     }
+    /// a predicate shaped like what the planner pushes below the match (query_api/ast_walk.rs
+    /// extract_predicates): a top-level AND / OR chain of `x.key = literal-or-parameter` atoms over values that
+    /// occur in the graph, some atoms negated or replaced by an arbitrary predicate
+    pub fn pushdown_pred(&mut self) -> Ex {
+        let nodes = self.vars_of(Ty::Node);
+        let rels = self.vars_of(Ty::Rel);
+        let n = 2 + self.r.below(2) as usize;
+        let mut atoms: Vec<Ex> = vec![];
+        for _ in 0..n {
+            let a = if nodes.is_empty() && rels.is_empty() || self.r.chance(1, 5) { self.pred(1) } else {
+                let (x, k) = if !nodes.is_empty() && (rels.is_empty() || self.r.chance(3, 4)) { (*self.r.pick(&nodes), if self.r.chance(2, 3) { "k".to_string() } else { self.r.pick(&NODE_KEYS).to_string() }) } else { (*self.r.pick(&rels), "w".to_string()) };
+                let pool: Vec<MV> = self.sc.kvals.get(&k).cloned().unwrap_or_default().into_iter().filter(|v| !matches!(v, MV::Int(i) if *i < 0) && !matches!(v, MV::Float(_) | MV::List(_))).collect();
+                let rhs = if !self.sc.params.is_empty() && self.r.chance(1, 5) { Ex::Param(self.r.pick(&self.sc.params).0) }
+                          else if pool.is_empty() { Ex::Lit(MV::Int(self.r.range(0, 3))) } else { Ex::Lit(self.r.pick(&pool).clone()) };
+                let eq = if self.r.chance(1, 4) { Ex::Bin(Bin::Eq, Box::new(rhs), Box::new(Ex::Prop(x, k))) } else { Ex::Bin(Bin::Eq, Box::new(Ex::Prop(x, k)), Box::new(rhs)) };
+                if self.r.chance(1, 6) { Ex::Un(Un::Not, Box::new(eq)) } else { eq }
+            };
+            atoms.push(a);
+        }
+        self.note("pushdown-shape");
+        let mut e = atoms.pop().unwrap();
+        while let Some(a) = atoms.pop() {
+            let o = if self.r.chance(1, 2) { Bin::Or } else { Bin::And };
+            e = Ex::Bin(o, Box::new(a), Box::new(e));
+        }
+        e
+    }
+
     /// boolean-or-null by construction
     pub fn pred(&mut self, d: u32) -> Ex {
         let nodes = self.vars_of(Ty::Node);
         let bools = self.vars_of(Ty::Bool);
-        let c = self.r.below(24);
+        let c = self.r.below(34);
         match c {
             0..=3 => {
                 self.note("cmp");
@@ -599,8 +637,11 @@ impl<'a> ExGen<'a> {
             }
             4..=6 if d > 0 => {
                 self.note("logic");
-                let o = *self.r.pick(&[Bin::And, Bin::Or, Bin::Xor]);
-                Ex::Bin(o, Box::new(self.pred(d - 1)), Box::new(self.pred(d - 1)))
+                let o = *self.r.pick(&[Bin::And, Bin::Or, Bin::Or, Bin::Xor]);
+                // operands are negated a third of the time (NOT over null-valued comparisons)
+                let side = |me: &mut Self| { let q = me.pred(d - 1); if me.r.chance(1, 3) { Ex::Un(Un::Not, Box::new(q)) } else { q } };
+                let (l, rr) = (side(self), side(self));
+                Ex::Bin(o, Box::new(l), Box::new(rr))
             }
             7 if d > 0 => { self.note("not"); Ex::Un(Un::Not, Box::new(self.pred(d - 1))) }
             8 => { self.note("isnull"); Ex::Un(if self.r.chance(1, 2) { Un::IsNull } else { Un::IsNotNull }, Box::new(self.any(d.saturating_sub(1)))) }
@@ -631,6 +672,40 @@ impl<'a> ExGen<'a> {
             15 if !bools.is_empty() => Ex::Var(*self.r.pick(&bools)),
             16 => { self.note("headlast"); Ex::Bin(Bin::Eq, Box::new(Ex::Fn(if self.r.chance(1, 2) { Fun::Head } else { Fun::Last }, vec![self.list(d.saturating_sub(1))])), Box::new(self.any(d.saturating_sub(1)))) }
             17 => { self.note("boollit"); Ex::Lit(if self.r.chance(1, 3) { MV::Null } else { MV::Bool(self.r.chance(1, 2)) }) }
+            24..=27 if !nodes.is_empty() || !self.vars_of(Ty::Rel).is_empty() => {
+                // a property against a value that occurs in the graph under the same key (=, <>, <, >=, IN)
+                self.note("graphvalue");
+                let rels = self.vars_of(Ty::Rel);
+                let (x, k) = if !nodes.is_empty() && (rels.is_empty() || self.r.chance(3, 4)) { (*self.r.pick(&nodes), self.r.pick(&NODE_KEYS).to_string()) } else { (*self.r.pick(&rels), "w".to_string()) };
+                let pool: Vec<MV> = self.sc.kvals.get(&k).cloned().unwrap_or_default();
+                let pick = |r: &mut Rng| if pool.is_empty() { MV::Int(r.range(0, 3)) } else { r.pick(&pool).clone() };
+                if self.r.chance(1, 3) {
+                    let n = 1 + self.r.below(3);
+                    let mut items: Vec<Ex> = (0..n).map(|_| Ex::Lit(pick(self.r))).collect();
+                    if self.r.chance(1, 4) { items.push(Ex::Lit(MV::Null)); }
+                    Ex::Bin(Bin::In, Box::new(Ex::Prop(x, k)), Box::new(Ex::List(items)))
+                } else {
+                    let o = *self.r.pick(&[Bin::Eq, Bin::Eq, Bin::Neq, Bin::Lt, Bin::Ge]);
+                    Ex::Bin(o, Box::new(Ex::Prop(x, k)), Box::new(Ex::Lit(pick(self.r))))
+                }
+            }
+            28..=29 if self.sc.vars.iter().any(|(_, _, nullable)| *nullable) => {
+                // IS NULL / IS NOT NULL on a variable that an OPTIONAL MATCH or UNWIND may have left null
+                self.note("isnull-var");
+                let nv: Vec<usize> = self.sc.vars.iter().filter(|(_, _, n)| *n).map(|(v, _, _)| *v).collect();
+                Ex::Un(if self.r.chance(1, 2) { Un::IsNull } else { Un::IsNotNull }, Box::new(Ex::Var(*self.r.pick(&nv))))
+            }
+            30..=31 if !nodes.is_empty() => {
+                // a string predicate over a string that occurs in the graph
+                self.note("strop-graph");
+                let strs: Vec<String> = self.sc.kvals.get("s").map(|vs| vs.iter().filter_map(|v| if let MV::Str(s) = v { Some(s.clone()) } else { None }).collect()).unwrap_or_default();
+                let base = if strs.is_empty() { "a".to_string() } else { self.r.pick(&strs).clone() };
+                let chars: Vec<char> = base.chars().collect();
+                let cut = if chars.is_empty() { 0 } else { 1 + self.r.below(chars.len() as u64) as usize };
+                let o = *self.r.pick(&[Bin::StartsWith, Bin::EndsWith, Bin::Contains]);
+                let part: String = match o { Bin::EndsWith => chars[chars.len() - cut..].iter().collect(), _ => chars[..cut].iter().collect() };
+                Ex::Bin(o, Box::new(Ex::Prop(*self.r.pick(&nodes), "s".to_string())), Box::new(Ex::Lit(MV::Str(part))))
+            }
             _ => {
                 // a numeric property against a small literal: varies between rows on most graphs
                 self.note("cmp");
